@@ -3,7 +3,10 @@ rendering): Q trees, expressions, enums, strings, containers."""
 import itertools
 
 STRINGS = ['plain', "it's", 'say "hi"', 'back\\slash', '100%', 'ünï',
-           '%s', '']
+           '%s', '',
+           # a backslash in front of a character that Python would read as
+           # an escape sequence, and a real control character
+           'C:\\temp\\new\\readme', 'tab\there']
 
 
 def q_leaves():
